@@ -135,6 +135,7 @@ func (t *Tokenizer) Load(r io.Reader, handler TokenHandler) (err error) {
 		if err != nil {
 			return
 		}
+		t.noff -= len(buf) - skip // keep the newline offset relative to the next buffer
 		skip = 0
 		if eof {
 			break
